@@ -62,11 +62,8 @@ def main():
         sys.exit(0)
 
     ctx = H.Ctx(pid, tier, seed, level, 0, nsh)
-    if nsh <= 1:
-        ctx.nshards = 1
-        _install(mod, ctx)
-        _run(mod, ctx)
-    else:
+    if True:
+        nsh = max(nsh, 1)      # a single shard also runs in a child process: the wall-clock watchdog needs one
         timeout = getattr(mod, 'TIMEOUT', {}).get(tier, 900 if tier == 'quick' else 7200)
         for d, reason in H.run_shards(pid, tier, seed, nsh, timeout):
             if d is None:
